@@ -736,22 +736,29 @@ C_<TN_, TA_, SG_, TH_, TS_...>::resolveRandom(Control& control,
 	HFSM2_ASSERT(0.0f <= random && random < 1.0f);
 
 	Utility cursor = random * sum;
+	Prong last = INVALID_PRONG;
 
 	for (Prong i = 0; i < count<Prong>(ranks); ++i)
 		if (ranks[i] == top) {
 			HFSM2_ASSERT(utilities[i] >= 0.0f);
 
-			if (cursor >= utilities[i])
+			if (cursor >= utilities[i]) {
 				cursor -= utilities[i];
-			else {
+
+				if (utilities[i] > 0.0f)
+					last = i;
+			} else {
 				HFSM2_LOG_RANDOM_RESOLUTION(control.context(), HEAD_ID, i, random);
 
 				return i;
 			}
 		}
 
-	HFSM2_BREAK();
-	return INVALID_PRONG;
+	// rounding in the cumulative walk can step past the last eligible sub-state
+	HFSM2_ASSERT(last != INVALID_PRONG);
+	HFSM2_LOG_RANDOM_RESOLUTION(control.context(), HEAD_ID, last, random);
+
+	return last;
 }
 
 // - - - - - - - - - - - - - - - - - - - - - - - - - - - - - - - - - - - - - - -
